@@ -304,7 +304,7 @@ class Verdict:
     UNKNOWN = "unknown"
 
 
-def equivalent(a, b, extra_rules=None) -> str:
+def equivalent(a, b, extra_rules=None, _case_split=True) -> str:
     """Decide a == b as terms.  DIFFERENT only when neither side involves unknowns."""
     a = to_term(a)
     b = to_term(b)
@@ -339,6 +339,27 @@ def equivalent(a, b, extra_rules=None) -> str:
                 return Verdict.EQUAL
     except Exception:
         pass
+    # selections under the same few tests: compare case by case (ite(C, x, y) + ite(C, u, v) is ite(C, x + u, y + v))
+    if _case_split:
+        conds = []
+        for t_ in (a, b):
+            for n in sp.preorder_traversal(t_):
+                if fname(n) == "ite" and n.args[0] not in conds:
+                    conds.append(n.args[0])
+        if 1 <= len(conds) <= 3:
+            import itertools
+            all_equal = True
+            for vals in itertools.product((True, False), repeat=len(conds)):
+                facts = dict(zip(conds, vals))
+                try:
+                    if equivalent(assume(a, facts), assume(b, facts), _case_split=False) != Verdict.EQUAL:
+                        all_equal = False
+                        break
+                except Exception:
+                    all_equal = False
+                    break
+            if all_equal:
+                return Verdict.EQUAL
     if has_unknown(a) or has_unknown(b):
         return Verdict.UNKNOWN
     # array-structure operators (slices, stores, rolls, loop summaries): compare the arrays the two terms denote
